@@ -317,6 +317,13 @@ def Need.holds (env : Env) : Need → Prop
   | .lenEq p q => env.len p = env.len q
   | .noNilCoin p => env.anyNil p = false
 
+/-- `q.m()` on a coin `q` with `q.Amount = p` evaluated to `b` -/
+def hasCoinFact (fs : List Fact) (p m : String) (b : Bool) : Bool :=
+  fs.any fun f =>
+    match f with
+    | (.coinPred q m', b') => q ++ ".Amount" == p && m' == m && b' == b
+    | _ => false
+
 def followsNeed (fs : List Fact) : Need → Bool
   | .nonNil p => followsNonNil fs p
   | .sumFits256 p q =>
@@ -324,8 +331,10 @@ def followsNeed (fs : List Fact) : Need → Bool
   | .signGe0 p =>
     hasFact fs (.intPred p "IsNegative") false || hasFact fs (.intPred p "IsPositive") true ||
       hasFact fs (.intSign p .lt) false || hasFact fs (.intSign p .ge) true || hasFact fs (.intSign p .eq) true ||
-      hasFact fs (.intSign p .ne) false || hasFact fs (.intSign p .gt) true
-  | .signGt0 p => hasFact fs (.intPred p "IsPositive") true || hasFact fs (.intSign p .gt) true || hasFact fs (.intSign p .le) false
+      hasFact fs (.intSign p .ne) false || hasFact fs (.intSign p .gt) true ||
+      hasCoinFact fs p "IsNegative" false || hasCoinFact fs p "IsPositive" true
+  | .signGt0 p => hasFact fs (.intPred p "IsPositive") true || hasFact fs (.intSign p .gt) true || hasFact fs (.intSign p .le) false ||
+      hasCoinFact fs p "IsPositive" true
   | .lenEq p q =>
     hasFact fs (.lenRel p .ne q) false || hasFact fs (.lenRel q .ne p) false || hasFact fs (.lenRel p .eq q) true ||
       hasFact fs (.lenRel q .eq p) true
@@ -365,6 +374,8 @@ structure Prog where
   meth : String
   typeURL : String       -- proto message name with leading `/` when the receiver is a registered message, else ""
   root : Bool            -- a message / claim / packet / proposal type: hostile input reaches it directly
+  reach : Bool           -- reachable from a root through calls (`callErr`, `retCall`, `ext` atoms naming fx-core helpers)
+  deps : List String     -- programs it calls
   prog : List Stmt
   deriving Repr
 
@@ -372,7 +383,43 @@ structure Callee where
   fn : String            -- as written in the atoms (`sdk.AccAddressFromBech32`)
   full : String          -- package path + name
   fxcore : Bool
-  prog : String          -- name of the translated program when fx-core ("" = not translated)
+  progs : List String    -- the translated program(s) when fx-core (every implementation for an interface method; [] = not translated)
   deriving Repr, DecidableEq
+
+/-- dependency functions that stateless validation calls and that are TRUSTED to be total (return a value or an error for every
+argument, never panic); each is exercised by the harness with the hostile payload classes.  A call to any other dependency
+function from a validation method breaks the obligation `msg_callees_closed` until it is reviewed here. -/
+def trustedTotal : List String := [
+  -- error-returning calls (`ext` atoms)
+  "github.com/cosmos/cosmos-sdk/types.AccAddressFromBech32",      -- bech32 decode + length check
+  "github.com/cosmos/cosmos-sdk/types.ValAddressFromBech32",
+  "github.com/cosmos/cosmos-sdk/types.ValidateDenom",             -- regexp match
+  "encoding/hex.DecodeString",
+  "github.com/ethereum/go-ethereum/crypto.SigToPub",              -- checks len(sig) = 65 and the recovery id before recovering
+  "github.com/fbsobreira/gotron-sdk/pkg/common.DecodeCheck",      -- base58 + checksum, length checked
+  "github.com/cosmos/ibc-go/v8/modules/apps/transfer/types.ValidateIBCDenom",
+  "github.com/cosmos/cosmos-sdk/x/gov/types/v1beta1.ValidateAbstract",
+  "(github.com/cosmos/cosmos-sdk/x/bank/types.Metadata).Validate",
+  "cosmossdk.io/math.LegacyNewDecFromStr",
+  -- calls inside hazard-free expressions (`oracle` atoms)
+  "(*regexp.Regexp).MatchString",
+  "(github.com/cosmos/cosmos-sdk/types.AccAddress).Bytes",
+  "(github.com/ethereum/go-ethereum/common.Address).Bytes",
+  "(github.com/ethereum/go-ethereum/common.Address).Hex",
+  "bytes.Equal",
+  "cosmossdk.io/math.LegacyOneDec",
+  "github.com/ethereum/go-ethereum/common.HexToAddress",
+  "github.com/ethereum/go-ethereum/common.IsHexAddress",
+  "github.com/ethereum/go-ethereum/crypto.PubkeyToAddress",
+  "github.com/ethereum/go-ethereum/crypto.Keccak256",
+  "github.com/fbsobreira/gotron-sdk/pkg/common.EncodeCheck",
+  "strings.TrimSpace",
+  "(time.Duration).Seconds",
+  "(cosmossdk.io/math.LegacyDec).GT",
+  "(cosmossdk.io/math.LegacyDec).IsNegative"
+]
+
+/-- call depth bound used for the generated table (deepest chain today: MsgClaim → claim.ValidateBasic → validateBasic) -/
+def msgFuel : Nat := 6
 
 end FxVerif.Model.C20Msg
